@@ -20,7 +20,9 @@ EXHAUSTIVE = False
 EXHAUSTIVE_NOTE = "exhaustive parts: every prefix of every generated payload for the done predicate; every single cut of the small carriers; TableHeader flag byte"
 ASSUMPTIONS = ["caller slices have cap = len", "io.ReadFull / bytes.Reader deliver 188-byte blocks then EOF",
                "descriptor bodies are observed through reflection on the []byte field of the concrete descriptor struct"]
-PARTIAL = "see Properties/C06.v: names ending in _partial; K1 (empty stream list never returned by ReadPMT) is a known finding"
+PARTIAL = ("no clause is partial. K1: ReadPMT never returns a PMT with an empty stream list (C06_L4_empty_streams_refuted; model and code agree, "
+           "cases of kind read-empty-streams-K1 are fidelity cases). L3/L4 state the exception at inner section ends explicitly. "
+           "Descriptor bodies are observed by reflection; String()/Format() are not compared.")
 
 
 def read_cases(rng, c, payload, pid, out, kind, cutsets, interleave=True):
